@@ -50,6 +50,9 @@ def typeLoop : List Spanned → (nesting : Int) → Bool
     | .op .Equal => if n = 0 then true else if n > 0 then typeLoop ts n else false
     | .op .Lsqb => typeLoop ts (n + 1)
     | .op .Rsqb => typeLoop ts (n - 1)
+    -- `#[cfg(feature = "full-lexer")] Tok::Comment(_) | Tok::NonLogicalNewline => {}` (repaired code,
+    -- commit e335017; without `full-lexer` these tokens never occur)
+    | .comment _ | .nonLogicalNewline => typeLoop ts n
     | _ => if n > 0 then typeLoop ts n else false
 
 /-- the `Tok::Type` look-ahead: the next token must be a name (or a soft keyword) -/
